@@ -596,6 +596,19 @@ def cases(rng, tier, shard, nshards):
         yield {'class': 'trace', 'trace': 'web2.csv', 'knees': K,
                'ekind': ['exact', 'jitter', 'exact-shuffled', 'mixed'][shard],
                'eseed': int(rng.integers(0, 2 ** 31)), 't': [0.01, 0.0, 0.05, 0.01][shard]}
+    # hundreds of knees / expected points on a long curve (blocked or vectorised matching only shows there)
+    for _ in range(1 if tier == 'quick' else 3):
+        pts, meta = gen.curve(rng, nmax=1600, nmin=900, family=pick(rng, ['mrc', 'inv', 'noise', 'expdecay']))
+        n = len(pts)
+        nk = int(rng.integers(257, 520))
+        K = np.sort(rng.choice(n, size=nk, replace=False)).astype(int)
+        kind = pick(rng, ['jitter', 'arbitrary', 'mixed', 'exact'])
+        room = min(n - nk, int(pick(rng, [16, 40, 300, 300])))
+        E = np.ascontiguousarray(_expected(rng, pts, K, kind, room) if kind != 'exact' else pts[K].copy(), dtype=float)
+        if len(E) > n - nk:
+            E = E[:n - nk]
+        yield {'class': 'curve', 'points': pts, 'family': str(meta['family']) + '+many-knees', 'layout': 'C', 'knees': K,
+               'expected': E, 'ekind': kind, 'edtype': 'f64'}
     for i in range(shard_count(total, shard, nshards)):
         yield _large_int_case(rng) if rng.random() < 0.05 else _curve_case(rng, tier)
 
